@@ -357,6 +357,14 @@ class C06(Property):
             '`A + 2 A`, explicit coefficient 1, bare/coefficient mixes, shuffled order, inactive parts likewise) and read through '
             'ReactionSystem.from_string or Reaction.from_string + constructor, 30% of them with generic substances without composition '
             '(no balance check to catch a mis-read; accuracy vs expm / closed forms only). '
+            'BUILDER OPTIONS (coverage round): half of the integrations and 30% of the callback correspondence cases ask get_odesys in one of its '
+            'other ways: rate constants as free parameters (include_params=False) named in the text ("; \'k0\'"), as MassAction([k], '
+            'unique_keys) or MassAction(None, [name]) through the constructor, bound through substitutions= (numbers, quantities, or an '
+            'Arrhenius-type Expr of a temperature parameter), parameter SCANS through the parameters of one odesys; cstr=True (feed ratio and '
+            'feed concentrations as parameters; reference: exponential of the augmented matrix; model op max_euler_step_cb_cstr); '
+            'PartiallySolvedSystem over extra["linear_dependencies"](preferred); real species through the default formula factory; and the '
+            'eight REFUSALS (unbalanced text, strict check without composition, unknown substitution, reserved key time, four of '
+            'linear_dependencies) which must raise ValueError. '
             'HISTORIES (explore:history, euler:*:after-history): parameter scans / refits on the SAME ReactionSystem / Reaction objects '
             '(from_string or constructor): 2-4 steps, each re-assigns rxn.param over +-2 decades (total spread of the constants <= 8 decades, the calibrated regime), optionally touches rate_expr / rates / '
             'string / get_odesys, rebuilds with get_odesys and integrates; every integration is compared with the exact solution for the '
@@ -392,12 +400,18 @@ class C06(Property):
         'user-scale reading of the returned step (h/indep_scaling, cap 1/indep_scaling) is an interpretation checked by the oracle only',
         'the many spellings of a reaction in text (repeated terms, explicit 1, mixes) reach the integrator unchanged: sampled only (C12 proves '
         'the parser model, nothing composes it with the kinetics here)',
-        'zero composition coefficients (numpy 0/0 -> nan instead of ZeroDivisionError) and include_params=False / substitutions: outside '
-        'the model and not generated',
+        'zero composition coefficients (numpy 0/0 -> nan instead of ZeroDivisionError): outside the model and not generated',
+        'the other ways of building the system (include_params=False with named / unique-key constants, substitutions incl. Expr-valued, '
+        'PartiallySolvedSystem, default formula factory): the model is the plain system with the constants bound (C04 binding_invariance); '
+        'that these builds integrate to the same exact solutions is sampled only',
+        'stirred tank (cstr=True): proved are quasi_positive_cstr and euler_step_cb_cstr_safe; accuracy vs the augmented matrix exponential is '
+        'sampled; the elemental bounds are no physical limit of an open system (the callback returns 0 / -1e-18 when a feed raises a species '
+        'that holds all of an element — reported)',
     )
     anchors = (('chempy/kinetics/ode.py', 'get_odesys'), ('chempy/reactionsystem.py', 'ReactionSystem.upper_conc_bounds'),
                ('chempy/reactionsystem.py', 'ReactionSystem.rates'), ('chempy/reactionsystem.py', 'ReactionSystem.check_balance'),
-               ('chempy/reactionsystem.py', 'ReactionSystem.from_string'), ('chempy/kinetics/rates.py', 'MassAction'),
+               ('chempy/reactionsystem.py', 'ReactionSystem.from_string'), ('chempy/kinetics/rates.py', 'MassAction.active_conc_prod'),
+               ('chempy/kinetics/rates.py', 'MassAction.rate_coeff'), ('chempy/kinetics/rates.py', 'MassAction.__call__'),
                ('chempy/chemistry.py', 'Reaction.rate'), ('chempy/chemistry.py', 'Reaction.net_stoich'))
 
     def __init__(self):
@@ -463,10 +477,18 @@ class C06(Property):
         if rng.random() < 0.25:             # history: the same objects carried other constants before (scan / refit), powers of two
             pre = [[rat_json(F(2) ** rng.randint(-6, 6)) for _ in rxns] for _ in range(rng.randint(1, 2))]
         sysopt = rand_sysopt(rng, dyadic=True) if planted in ('balanced', 'inactive-reactant') else None
+        bopt = None
+        if planted in ('balanced', 'inactive-reactant') and rng.random() < 0.3:
+            # other ways of asking the builder: constants as free parameters (named in the text / unique keys), stirred tank
+            sysopt = None
+            if rng.random() < 0.5:
+                bopt = {'pmode': rng.choice(['named', 'unique', 'keyonly', 'subst'])}
+            else:
+                bopt = {'cstr': {'fr': _dy(rng, 0, 64, 16), 'fc': [0 if rng.random() < 0.4 else _dy(rng, 1, 64, 16) for _ in subs]}}
         if sysopt:      # a state of the wrong length is a TypeError inside pyodesys' scaling pre-processor (ValueError otherwise): not modelled
             states = [st for st in states if len(st) == len(subs)]
         return {'op': 'max_euler_step_cb', 'subs': subs, 'rxns': rxns, 'states': states, 'planted': planted,
-                'fseed': rng.randrange(10 ** 9), 'pre': pre, 'sysopt': sysopt}
+                'fseed': rng.randrange(10 ** 9), 'pre': pre if not bopt else None, 'sysopt': sysopt, 'bopt': bopt}
 
     def _linear_case(self, rng, tier, max_decades=8):
         decades = rng.choice([d for d in (2, 4, 6, 8) if d <= max_decades])
@@ -507,7 +529,7 @@ class C06(Property):
              'tout': tout, 'atol': tol * rng.choice([1, 1e-2]), 'rtol': tol, 'integrator': rng.choice([None, 'scipy']),
              'units': rand_units(rng, 3) if rng.random() < 0.4 else None, 'text': self._rand_text(rng), 'sysopt': rand_sysopt(rng)}
         c = self._rand_opts(rng, c, ['A', 'P'] if which == 'dimer' else ['A', 'B', 'P'], allow_cstr=False)
-        if rng.random() < 0.25 and not (c['opts'] or {}).get('params') == 'unique':
+        if rng.random() < 0.25 and (c['opts'] or {}).get('params') not in ('unique', 'keyonly'):
             # real species (Fe+3 + SCN- <-> FeSCN+2, 2 NO2 -> N2O4) read by the DEFAULT substance factory = the formula parser
             c['text'] = {'seed': rng.randrange(10 ** 9), 'via': 'system', 'nocomp': False, 'formulas': True}
         return c
@@ -518,12 +540,18 @@ class C06(Property):
         case['opts'] = None
         if r < 0.5:
             return case
-        kind = rng.choice(['named', 'named', 'unique', 'cstr', 'cstr', 'partial', 'partial'] if allow_cstr else ['named', 'unique', 'partial'])
+        kind = rng.choice(['named', 'unique', 'keyonly', 'subst', 'active', 'cstr', 'cstr', 'partial', 'partial'] if allow_cstr
+                          else ['named', 'unique', 'keyonly', 'subst', 'active', 'partial'])
         case['sysopt'] = None
-        if kind in ('named', 'unique'):
-            case['opts'] = {'params': kind, 'scan': [[1.0 if rng.random() < 0.3 else float('%.3g' % 10 ** rng.uniform(-1.5, 1.5))
-                                                      for _ in range(12)] for _ in range(rng.randint(0, 2))]}
-            if kind == 'unique':
+        if kind == 'active':
+            case['units'] = None
+            case['opts'] = {'params': 'active', 'scan': [], 'T': float('%.4g' % rng.uniform(250, 400)), 'free': rng.random() < 0.5,
+                            'E': [float('%.4g' % rng.uniform(0, 5000)) for _ in range(4)]}
+        elif kind in ('named', 'unique', 'keyonly', 'subst'):
+            case['opts'] = {'params': kind, 'scan': [] if kind == 'subst' else
+                            [[1.0 if rng.random() < 0.3 else float('%.3g' % 10 ** rng.uniform(-1.5, 1.5)) for _ in range(12)]
+                             for _ in range(rng.randint(0, 2))]}
+            if kind in ('unique', 'keyonly'):
                 case['units'] = None
                 case['text'] = {'seed': None, 'via': 'system', 'nocomp': False}
         elif kind == 'cstr':
@@ -614,6 +642,9 @@ class C06(Property):
                         if net.rxns:
                             c = {'op': 'first_order_matrix', 'subs': net.subs_json(), 'rxns': net.rxns, 'fseed': rng.randrange(10 ** 9)}
             cases.append(c)
+        for w in self.REFUSALS:
+            cases.append({'kind': 'refusal', 'what': w, 'k': [float('%.3g' % 10 ** rng.uniform(-2, 2)), float('%.3g' % 10 ** rng.uniform(-2, 2))],
+                          'n': rng.choice([1, 3, 4])})
         rng.shuffle(cases)
         return cases
 
@@ -622,6 +653,11 @@ class C06(Property):
         if op == 'max_euler_step_cb':
             mc = {'op': op, 'keys': [k for k, _ in case['subs']], 'comps': [comp for _, comp in case['subs']],
                   'rxns': case['rxns'], 'states': case['states'], 'pre': case.get('pre')}
+            bo = case.get('bopt') or {}
+            mc['bopt'] = bo or None
+            if bo.get('cstr'):
+                mc['op'] = 'max_euler_step_cb_cstr'
+                mc['fr'], mc['fc'] = bo['cstr']['fr'], bo['cstr']['fc']
             so = case.get('sysopt')
             if so:
                 # ScaledSys works on y_int = s*y, t_int = tau*t; for mass action of order n that IS the plain system with
@@ -640,7 +676,7 @@ class C06(Property):
 
     def classify(self, case):
         if case.get('op') == 'max_euler_step_cb':
-            return 'euler:%s:nr=%d%s' % (case.get('planted'), len(case['rxns']), ':after-history' if case.get('pre') else '') + (':ScaledSys' if case.get('sysopt') else '')
+            return 'euler:%s:nr=%d%s' % (case.get('planted'), len(case['rxns']), ':after-history' if case.get('pre') else '') + (':ScaledSys' if case.get('sysopt') else '') + (':' + '-'.join(map(str, sorted((case.get('bopt') or {}).items())[0][:1] + ((case['bopt'].get('pmode'),) if case['bopt'].get('pmode') else ()))) if case.get('bopt') else '')
         if case.get('op'):
             return case['op']
         k = case.get('kind')
@@ -649,6 +685,8 @@ class C06(Property):
             return 'explore:linear:decades=%d%s' % (round(math.log10(max(ks) / min(ks))), self._utag(case))
         if k == 'bimol':
             return 'explore:bimol:' + case['which'] + self._utag(case)
+        if k == 'refusal':
+            return 'refusal:' + case['what']
         if k == 'history':
             return 'explore:history:%s:%s:steps=%d' % (case['base']['kind'], case['source'], len(case['steps']))
         return 'explore:%s%s' % (k, self._utag(case))
@@ -663,23 +701,32 @@ class C06(Property):
         return extra + ':units-%s-%s' % (un['form'], 'mixed' if len(set(un['conc'])) > 1 else 'uniform')
 
     def nontrivial(self, case):
-        return bool(case.get('rxns')) or case.get('op') == 'upper_conc_bounds' or case.get('kind') in ('bimol', 'history')
+        return bool(case.get('rxns')) or case.get('op') == 'upper_conc_bounds' or case.get('kind') in ('bimol', 'history', 'refusal')
 
     # ---- real objects -----------------------------------------------------------------------
-    def _build(self, subs, rxns, pre=None, sysopt=None):
+    def _build(self, subs, rxns, pre=None, sysopt=None, bopt=None):
         """-> (rsys, odesys | exception, extra) for a case; cached between impl and oracle.
         `pre` = HISTORY before the state that is compared: a list of per-reaction scale vectors (powers of two). The SAME Reaction /
         ReactionSystem objects are first given the constants `param*scale`, used (get_odesys, rate_expr, rates, the callback), and
         then re-assigned (`rxn.param = ...`) — as in a parameter scan or refit; what is returned is built from the final constants."""
-        key = json.dumps([subs, rxns, pre, sysopt], sort_keys=True)
+        key = json.dumps([subs, rxns, pre, sysopt, bopt], sort_keys=True)
         if key in self._cache:
             return self._cache[key]
         from chempy import ReactionSystem, Substance
         from chempy.kinetics.ode import get_odesys
         substances = OrderedDict((name, Substance(name, composition=OrderedDict((int(e), int(v)) for e, v in comp)))
                                  for name, comp in subs)
+        bopt = bopt or {}
+        pmode = bopt.get('pmode')
         rsys = ReactionSystem([kg.mk_reaction(r, 'float') for r in rxns], substances, checks=())
         final = [r.param for r in rsys.rxns]
+        gk = dict(sys_kwargs(sysopt))
+        self._pvals = OrderedDict()
+        if bopt.get('cstr'):
+            gk['cstr'] = True
+            self._pvals['feedratio'] = float(_fr(bopt['cstr']['fr']))
+            self._pvals.update(('fc_' + k, float(_fr(v))) for (k, _), v in zip(subs, bopt['cstr']['fc']))
+        pvals = self._pvals
         for scales in (pre or []):
             for r, k, sc in zip(rsys.rxns, final, scales):
                 r.param = k * float(_fr(sc))
@@ -696,14 +743,27 @@ class C06(Property):
                 pass
         for r, k in zip(rsys.rxns, final):
             r.param = k
+        if pmode:          # the same constants, but handed over as parameters / substitutions instead of being part of the reactions
+            from chempy.kinetics.rates import MassAction
+            names_k = ['k%d' % j for j in range(len(rsys.rxns))]
+            for r, nm, k in zip(rsys.rxns, names_k, final):
+                r.param = (MassAction([k], unique_keys=[nm]) if pmode == 'unique' else MassAction(None, [nm]) if pmode == 'keyonly'
+                           else MassAction.fk(nm))
+            if pmode == 'subst':
+                gk['substitutions'] = OrderedDict(zip(names_k, final))
+            else:
+                gk['include_params'] = False
+                self._pvals.update(zip(names_k, final))
         try:
             with warnings.catch_warnings():
                 warnings.simplefilter('ignore')
-                odesys, extra = get_odesys(rsys, **sys_kwargs(sysopt))
+                odesys, extra = get_odesys(rsys, **gk)
         except (ValueError, TypeError) as e:       # ValueError: a substance without rate entry; TypeError: no reaction at all
             odesys, extra = e, None
         if len(self._cache) > 8:
             self._cache.clear()
+        if extra is not None:
+            extra = dict(extra, _pvals=dict(pvals))
         self._cache[key] = (rsys, odesys, extra)
         return self._cache[key]
 
@@ -712,11 +772,11 @@ class C06(Property):
         op = mc['op']
         with warnings.catch_warnings():
             warnings.simplefilter('ignore')
-            if op == 'max_euler_step_cb':
+            if op in ('max_euler_step_cb', 'max_euler_step_cb_cstr'):
                 subs = list(zip(mc['keys'], mc['comps']))
                 so = mc.get('sysopt')
                 sd = float(_fr(so['dep'])) if so else 1.0
-                rsys, odesys, extra = self._build([list(s) for s in subs], mc.get('user_rxns', mc['rxns']), mc.get('pre'), so)
+                rsys, odesys, extra = self._build([list(s) for s in subs], mc.get('user_rxns', mc['rxns']), mc.get('pre'), so, mc.get('bopt'))
                 if extra is None:                                   # get_odesys / pyodesys refused the system
                     if isinstance(odesys, TypeError) and rsys.check_balance(strict=True) is not True:
                         return 'None'                               # (the model asks the gate first)
@@ -728,9 +788,10 @@ class C06(Property):
                 for st in mc.get('user_states', mc['states']):
                     y = [float(_fr(v)) for v in st]
                     yi = [v * sd for v in y]                        # the solver's (pre-processed) variables
+                    pv = extra['_pvals']
                     try:
-                        h = cb(0, y)
-                        f = odesys.f_cb(0, np.array(yi), ())
+                        h = cb(0, y, pv) if pv else cb(0, y)
+                        f = odesys.f_cb(0, np.array(yi), [pv[k] for k in odesys.param_names])
                         ub = rsys.upper_conc_bounds(yi)
                         out.append('%r;[%s];[%s]' % (float(h), ','.join(repr(float(v)) for v in f), ','.join(repr(float(v)) for v in ub)))
                     except Exception as e:
@@ -768,7 +829,7 @@ class C06(Property):
             a, b = [v for v in impl_out[1:-1].split(',') if v], [v for v in model_out[1:-1].split(',') if v]
             return len(a) == len(b) and all((u == 'inf') == (v == 'inf') and (u == 'inf' or close(float(u), F(v), 1e-12))
                                             for u, v in zip(a, b))
-        if mc['op'] != 'max_euler_step_cb':
+        if mc['op'] not in ('max_euler_step_cb', 'max_euler_step_cb_cstr'):
             return impl_out == model_out
         a, b = impl_out.split('|'), model_out.split('|')
         if len(a) != len(b):
@@ -783,7 +844,13 @@ class C06(Property):
             if not close(float(hx), F(hy), self.float_tol):
                 return False
             lf = lambda s: [v for v in s[1:-1].split(',') if v != '']
-            for u, v in list(zip(lf(fx), lf(fy))) + list(zip(lf(ux), lf(uy))):
+            # ScaledSys evaluates k*s/tau*(y/s)^n term by term: exact for powers of two up to the summation of large terms, so its
+            # derivative is compared relative to the largest component (plain systems: per component, exact inputs)
+            fabs = 1e-12 * max([abs(float(F(v))) for v in lf(fy)] + [0.0]) if mc.get('sysopt') else 0.0
+            for u, v in zip(lf(fx), lf(fy)):
+                if not close(float(u), F(v), 1e-12, fabs):
+                    return False
+            for u, v in zip(lf(ux), lf(uy)):
                 if (v == 'inf') != (u == 'inf') or (v != 'inf' and not close(float(u), F(v), 1e-12)):
                     return False
             if len(lf(fx)) != len(lf(fy)) or len(lf(ux)) != len(lf(uy)):
@@ -810,6 +877,8 @@ class C06(Property):
                 return self._oracle_traj(case)
             if kind == 'history':
                 return self._oracle_history(case)
+            if kind == 'refusal':
+                return self._oracle_refusal(case)
         return None
 
     def _euler_claim(self, subs, rxns, y, h, cap, where='', feed=None):
@@ -819,6 +888,11 @@ class C06(Property):
         ns = len(subs)
         f, mag = indep_rhs(subs, rxns, y, feed)
         ub = indep_bounds(subs, y)
+        # (open system: a species that holds all of an element sits ON its "elemental bound"; with a feed pushing it up the callback
+        #  computes (ub - y)/f with ub - y = rounding noise of either sign, i.e. a step of +-1e-17: accepted as zero there only)
+        hmin = -1e-12 * cap if feed else 0.0
+        if hmin <= h < 0:
+            h = 0.0
         if not (0 <= h <= cap * (1 + 1e-12)):
             return 'max_euler_step_cb: step %r (user time scale) outside [0, %r] at y=%r%s' % (h, cap, y, where)
         best = math.inf
@@ -847,10 +921,13 @@ class C06(Property):
         if case.get('planted') in ('unbalanced', 'nonparticipating'):
             return None
         so = case.get('sysopt')
-        rsys, odesys, extra = self._build(subs, rxns, case.get('pre'), so)
+        rsys, odesys, extra = self._build(subs, rxns, case.get('pre'), so, case.get('bopt'))
         if extra is None:
             return None
-        cb = extra['max_euler_step_cb']
+        raw_cb, pv = extra['max_euler_step_cb'], extra['_pvals']
+        cb = None if raw_cb is None else ((lambda x, y: raw_cb(x, y, pv)) if pv else raw_cb)
+        cs = (case.get('bopt') or {}).get('cstr')
+        feed = (float(_fr(cs['fr'])), [float(_fr(v)) for v in cs['fc']]) if cs else None
         if cb is None:
             return 'a balanced system with compositions got no max_euler_step_cb'
         rng = random.Random(case.get('fseed', 0))
@@ -861,7 +938,7 @@ class C06(Property):
         for _ in range(6):                                      # random float states, several decades, some zeros
             states.append([0.0 if rng.random() < 0.25 else 10 ** rng.uniform(-4, 1.5) for _ in range(ns)])
         for y in states:
-            f = self._euler_claim(subs, rxns, y, float(cb(0, y)) / tau, 1.0 / tau, where)
+            f = self._euler_claim(subs, rxns, y, float(cb(0, y)) / tau, 1.0 / tau, where, feed)
             if f:
                 return f
         return None
@@ -944,27 +1021,40 @@ class C06(Property):
         op = case.get('opts') or {}
         pm, cs, part = op.get('params'), op.get('cstr'), op.get('partial')
         gk = dict(sys_kwargs(so))
-        if pm:
+        if pm and pm not in ('subst', 'active'):
             gk['include_params'] = False
         if cs:
             gk['cstr'] = True
         pvals = OrderedDict()
-        if pm:
+        if pm == 'active':      # the named constants are rate-constant EXPRESSIONS of a parameter: k_j = A_j exp(-E_j / temperature),
+            import math as _m     # bound through `substitutions` (evaluated inside dydt); A_j chosen so that k_j is the case's constant
+            from chempy.util._expr import Expr
+            Arr = Expr.from_callback(lambda args, T, backend=_m: args[0] * backend.exp(-args[1] / T), parameter_keys=('temperature',), nargs=2)
+            T = op.get('T', 300.0)
+            gk['substitutions'] = OrderedDict(('k%d' % j, Arr([float(_fr(r['param'])) * _m.exp(op['E'][j % len(op['E'])] / T), op['E'][j % len(op['E'])]]))
+                                              for j, r in enumerate(rxns))
+            if op.get('free'):
+                gk['include_params'] = False
+            pvals['temperature'] = T
+        elif pm == 'subst':       # the named constants are bound at build time through `substitutions` (plain numbers / quantities)
+            gk['substitutions'] = OrderedDict(('k%d' % j, float(_fr(r['param']))) for j, r in enumerate(rxns))
+        elif pm:
             pvals.update(('k%d' % j, float(_fr(r['param']))) for j, r in enumerate(rxns))
         if cs:
             pvals['feedratio'] = cs['fr']
             pvals.update(('fc_' + k, v) for (k, _), v in zip(subs, cs['fc']))
 
         def named(lines):
-            return [l.rsplit(';', 1)[0] + "; 'k%d'" % j for j, l in enumerate(lines)] if pm == 'named' else lines
+            return [l.rsplit(';', 1)[0] + "; 'k%d'" % j for j, l in enumerate(lines)] if pm in ('named', 'subst', 'active') else lines
 
         def build(lines):
-            if pm == 'unique':
+            if pm in ('unique', 'keyonly'):
                 from chempy import Reaction
                 from chempy.kinetics.rates import MassAction
                 keys = [k for k, _ in subs]
                 return ReactionSystem([Reaction(OrderedDict(map(tuple, r['reac'])), OrderedDict(map(tuple, r['prod'])),
-                                                MassAction([float(_fr(r['param']))], unique_keys=['k%d' % j]),
+                                                (MassAction([float(_fr(r['param']))], unique_keys=['k%d' % j]) if pm == 'unique'
+                                                 else MassAction(None, ['k%d' % j])),
                                                 inact_reac=OrderedDict(map(tuple, r['inact_reac'])),
                                                 inact_prod=OrderedDict(map(tuple, r['inact_prod'])))
                                        for j, r in enumerate(rxns)], OrderedDict((k, factory(k)) for k in keys))
@@ -999,12 +1089,17 @@ class C06(Property):
             ulines = [rxn_text_units(r, un['k_conc'], un['k_time'], trng) for r in rxns]
             rsys = from_text(named(ulines))
             kwo = {}
-            if pm:        # the constants are passed as unit-carrying parameters instead of being written into the text
-                kwo['include_params'] = False
+            if pm:        # the constants are passed as unit-carrying parameters / substitutions instead of being written into the text
+                kq = OrderedDict()
                 for j, r in enumerate(rxns):
                     order = sum(n for _, n in r['reac'])
                     kv = float(_fr(r['param'])) * unit_factor(un['k_time']) * unit_factor(un['k_conc']) ** (order - 1)
-                    pvals['k%d' % j] = kv * unit_of(un['k_conc']) ** (1 - order) / unit_of(un['k_time'])
+                    kq['k%d' % j] = kv * unit_of(un['k_conc']) ** (1 - order) / unit_of(un['k_time'])
+                if pm == 'subst':
+                    kwo['substitutions'] = kq
+                else:
+                    kwo['include_params'] = False
+                    pvals.update(kq)
             if un.get('out_conc'):
                 kwo['output_conc_unit'] = unit_of(un['out_conc'])
             if un.get('out_time'):
@@ -1046,7 +1141,8 @@ class C06(Property):
         if xout.shape != (len(case['tout']) + 1,) or not np.allclose(xout[1:], case['tout'], rtol=1e-11, atol=0):
             return 'output times %r are not the requested ones %r' % (xout.tolist(), case['tout'])
         want0 = np.array([c0d[k] for k in names])
-        if yout.shape != (len(case['tout']) + 1, len(names)) or not np.allclose(yout[0], want0, rtol=1e-11, atol=0):
+        # (PartiallySolvedSystem recomputes the eliminated concentrations from the invariants: rounding of the order 1e-16*max c0)
+        if yout.shape != (len(case['tout']) + 1, len(names)) or not np.allclose(yout[0], want0, rtol=1e-11, atol=1e-14 * want0.max() if part else 0):
             return 'first output row %r is not the initial state %r' % (yout[0].tolist(), want0.tolist())
         return names, xout, yout, rsys, cb
 
@@ -1373,6 +1469,54 @@ class C06(Property):
             if f:
                 return f + where
         return None
+
+    REFUSALS = ('unbalanced_text', 'strict_nocomp', 'subst_unknown', 'time_reserved', 'lindep_empty', 'lindep_all', 'lindep_unknown',
+                'lindep_unobtainable')
+
+    def _oracle_refusal(self, case):
+        """malformed requests must be REFUSED with ValueError (never answered): an unbalanced reaction given as text, the strict
+        balance check without compositions (and then no callback), a substitution for a name that occurs nowhere, the reserved
+        key 'time', and the four refusals of extra['linear_dependencies']"""
+        from chempy import ReactionSystem, Substance
+        from chempy.kinetics.ode import get_odesys
+        from pyodesys.symbolic import PartiallySolvedSystem
+        what = case['what']
+        comps = {'A': {1: 2}, 'B': {1: 1}, 'C': {1: 1}}
+        k1, k2 = case.get('k', [0.4, 0.05])
+        fac = lambda n: Substance(n, composition=comps[n])
+        good = "A -> 2 B; %r\nB -> C; %r" % (k1, k2)
+
+        def expect(f, needle):
+            try:
+                r = f()
+            except ValueError as e:
+                return None if needle in str(e) else 'refusal %s: ValueError without %r: %s' % (what, needle, e)
+            except Exception as e:
+                return 'refusal %s: %s instead of ValueError: %s' % (what, type(e).__name__, e)
+            return 'refusal %s: accepted and returned %r' % (what, r)
+        if what == 'unbalanced_text':
+            return expect(lambda: ReactionSystem.from_string("A -> %d B; %r" % (case.get('n', 1), k1), substance_factory=fac), 'Composition violation')
+        if what == 'strict_nocomp':
+            rs = ReactionSystem.from_string(good, substance_factory=lambda n: Substance(n, composition=None if n == 'C' else comps[n]))
+            if rs.check_balance(strict=True) is not False:
+                return 'check_balance(strict=True) accepts a system with a substance without composition'
+            return expect(lambda: rs.check_balance(strict=True, throw=True), 'No composition')
+        if what == 'time_reserved':
+            return expect(lambda: get_odesys(ReactionSystem.from_string("time -> B; %r" % k1, substance_factory=Substance)), "'time' is reserved")
+        rs = ReactionSystem.from_string(good, substance_factory=fac)
+        if what == 'subst_unknown':
+            return expect(lambda: get_odesys(rs, substitutions={'zz': 1.0}), 'does not appear')
+        odesys, extra = get_odesys(rs)
+        ld = extra['linear_dependencies']
+        if what == 'lindep_empty':
+            return expect(lambda: ld([]), 'No preferred')
+        if what == 'lindep_all':
+            return expect(lambda: ld(['A', 'B', 'C']), 'Cannot remove all')
+        if what == 'lindep_unknown':
+            return expect(lambda: ld(['A', 'nope']), 'Unknown substance key')
+        if what == 'lindep_unobtainable':      # one invariant (H atoms) cannot eliminate two concentrations
+            return expect(lambda: PartiallySolvedSystem(odesys, ld(['B', 'C'])), 'Failed to obtain analytic expression')
+        return 'unknown refusal case'
 
     def _oracle_traj(self, case):
         subs, rxns = case['subs'], case['rxns']
